@@ -90,6 +90,21 @@ for _case in CASES:
         for k, s in enumerate(in_sigs + out_sigs):
             ctx.prove(f'sensitivity.state_object_kept[{k}]', it.getattr(s, 'state') is states_before[k])
             ctx.prove(f'sensitivity.state_values_untouched[{k}]', eq_lists(snapshot_vals(it.getattr(s, 'state')), vals_before[k]))
+        # scalar outputs may legitimately be seeded with a 0-d array (state*0 + 1.0): the module sees the stored object by reference
+        if any(not isinstance(w, (CArr, Obj)) for w, _ in W1):
+            def arr0(v):
+                d = np.empty((), dtype=object)
+                d[()] = v
+                return CArr(d, 'complex' if isinstance(v, Cx) else 'real')
+            seeds0 = [w if isinstance(w, (CArr, Obj)) else arr0(w) for w, _ in W1]
+            h1, _ = sens(seeds0)
+            h2, _ = sens(seeds0)
+            for k in range(len(inputs)):
+                ctx.prove(f'two_run.array_seed.same_as_scalar_seed[{k}]', eq_lists(h1[k], g1[k]))
+                ctx.prove(f'two_run.array_seed.same_contribution[{k}]', eq_lists(h1[k], h2[k]))
+            for k, ((w, _), w0) in enumerate(zip(W1, seeds0)):
+                if w0 is not w:
+                    ctx.prove(f'two_run.array_seed.seed_values_kept[{k}]', eq_lists(snapshot_vals(w0), [w]))
         it.call(it.getattr(mod, '_reset'), [])
         for k, s in enumerate(in_sigs + out_sigs):
             ctx.prove(f'reset.state_untouched[{k}]', it.getattr(s, 'state') is states_before[k] and eq_lists(snapshot_vals(it.getattr(s, 'state')), vals_before[k]) is True
